@@ -421,6 +421,9 @@ func fixedCases() []corr.Case {
 	}
 	rt = append(rt, "byte.rt -", "byte.rt 0", "byte.rt 255", "byte.rt 0,255,7", "b64.rt x:", "b64.rt x:00", "b64.rt x:ffff", "b64.rt x:000102", "dur.rt 1", "dur.rt 1500", "dur.rt 1000000", "dur.rt 3600000000000", "dur.rt -90000000001")
 	out = append(out, c("boundary-roundtrip", rt...))
+	out = append(out, c("boundary-duration", `dur.dec t:"9223372036854775808ns9223372036854775808ns"`, `dur.dec t:"9223372036854775808ns1ns"`, `dur.dec t:"9223372036854775808ns"`,
+		`dur.dec t:"-9223372036854775808ns"`, `dur.dec t:"2562047h47m16.854775807s"`, `dur.dec t:"2562047h47m16.854775808s"`, `dur.dec t:"-2562047h47m16.854775808s"`,
+		`dur.dec t:"0"`, `dur.dec t:"-0"`, `dur.dec t:"00"`, `dur.dec t:".s"`, `dur.dec t:"1.s"`, `dur.dec t:".5s"`, `dur.dec t:"1h1h"`, `dur.dec t:"1%C2%B5s"`, `dur.dec t:"1%CE%BCs"`, `dur.dec t:"1us"`))
 	out = append(out, c("malformed", "nop", "i64.dec", "i64.dec t:%zz", "i64.rt 9223372036854775808", "hex.rt 10 s 5", "b64.rt x:4", "sql.scan moon i64 1"))
 	return out
 }
